@@ -291,7 +291,12 @@ func (t *sseClientTransport) handleEndpointEvent(endpointURL string) {
 	}
 
 	t.endpoint = parsedURL
-	close(t.endpointChan) // Signal that the endpoint has been received.
+	select {
+	case <-t.endpointChan:
+		// Already signalled by an earlier endpoint event.
+	default:
+		close(t.endpointChan) // Signal that the endpoint has been received.
+	}
 }
 
 // handleMessageEvent processes message events from the server.
